@@ -63,6 +63,13 @@ PROPS = {
                        + ob("UcantoModel.Props.Termination", "V.terminates_all", "V.access_terminates", "V.C06_found"),
         "rule": WORLD_RULE, "trusted_base": VALIDATOR_TRUSTED,
     },
+    "C07": {
+        "manifest": {"text": "Field-level theorems for any signature scheme S (serialisation of the signed record a parameter): verifyRec_issue + C07_issue_verifies (for EVERY option combination - expiration or none, not-before, nonce, facts, proofs, several capabilities, any caveats - the record VerifySignature rebuilds from an issued token is the record Issue signed, so it verifies), C07_tamper (Ideal S, Binding S, injective serialisation: a token carrying an issued token's signature verifies only if its rebuilt record equals the signed one, only under the same key and only for a verifier whose DID is its issuer), verifyRec_covers (the record determines version, issuer, audience, capabilities, proofs, expiration, facts, nonce, not-before: every field is covered), C07_other_principal, C07_pinned_counterexample (record of the repaired nnc/nbf omission). The full-strength claim is false and kept visible: C07_dagjson_collision(_bytes) (known finding C07/F2). Correspondence with real Ed25519 / RSA / wrapped keys: tokens over every option combination and caveat / fact values of every IPLD kind, verified directly and after archive/extract, then one of 26 single alterations (each field, signature flip / code swap / truncation, other key, other DID, the three collision rewrites) re-encoded through a block round trip; the model predicts each boolean from the rebuilt records.", "design_ref": "5.7", "note": "trusted: Lean kernel; Payload.lean / Ipld.lean (hand-written, field level: DAG-JSON at tree level, byte serialisation assumed injective on trees); Ed25519/RSA idealised in theorems, real in the harness; known findings C07/F2 (link/bytes vs {\"/\":...} collision) and C07/F3 (null values cannot be decoded by bindnode)"},
+        "obligations": ob("UcantoModel.Props.C07", "Payload.verifyRec_issue", "Payload.C07_issue_verifies", "Payload.C07_tamper", "Payload.verifyRec_covers", "Payload.C07_other_principal",
+                          "Payload.C07_pinned_counterexample", "Payload.C07_dagjson_collision", "Payload.C07_dagjson_collision_bytes", "Payload.toy_binding"),
+        "rule": "tokens: key in {12 Ed25519, 2 RSA, 6 wrapped}, 1-3 capabilities with random nested caveats over all IPLD kinds, 0-2 proof links, expiration {none, explicit, default}, optional not-before, nonce, 0-2 facts; alteration kind round robin over 27 kinds. non-trivial: an alteration is applied. distinct: hash of the spec",
+        "trusted_base": ["Model/Payload.lean, Model/Ipld.lean (hand-written)"],
+    },
     "C08": {
         "manifest": {"text": "Theorems on the model of server.Run + Provide: C08_iff (the handler runs iff the invocation has exactly one capability, a method is registered for its ability and Access authorizes it; it receives the authorized capability), C08_at_most_once, C08_args (that capability is the invocation's own capability as parsed by the method's descriptor), C08_unauthorized, C08_capability_count, C08_not_found (the three refusal receipts, nothing runs), C08_only_authorized (behind every call there is a complete valid chain, by C01). Correspondence through the real server: client.Execute of batches of 1-4 invocations (shared proofs, unhandled abilities, zero/two capabilities, strangers) against recording handlers returning ok / ok+effects / error, with can-issue policy, revocation checker, proof and key resolvers set through the server options; compared: receipt outcome per invocation and the exact handler call log.", "design_ref": "5.8", "note": VALIDATOR_NOTE},
         "obligations": ob("UcantoModel.Props.C08", "Srv.C08_iff", "Srv.C08_at_most_once", "Srv.C08_args", "Srv.C08_unauthorized", "Srv.C08_capability_count", "Srv.C08_not_found", "Srv.C08_only_authorized"),
